@@ -6,6 +6,11 @@ Level: exploration.  A TLA+ specification cannot enumerate byte strings; Decode.
       mc/MC_Decode and used by trace/DecodeTrace to accept or refuse the recorded executions, and
   (2) the structure-aware mutation generator: TLC enumerates, over the abstract layouts that the real
       encoders produce, the mutation classes of the property's quantifier (mc/MC_Decode_gen).
+  (3) the catalogue of post-decode steps (PostSteps): the conversions / accessors / stateless checks that the message
+      handlers apply unconditionally to a freshly decoded value before chain state is consulted
+      (BitmapSegment::into_segment, Untrusted* -> into(), Block::hydrate_from, Segment::validate, identifier and fee
+      arithmetic, Get*Segment serving ...).  The harness pushes every value that decodes Ok through the steps of its
+      decoder under the same supervision; a violation names the step (decode:BitmapSegment::into_segment:panic:...).
 harness/decode runs every decoder reachable from the network or the API in child processes (counting
 allocator with a 1 GiB cap, catch_unwind, parent-side watchdog and restart) on valid encodings x mutations,
 random bytes and valid-prefix + random bytes, at protocol versions 1, 2, 3, 1000, release profile.
